@@ -34,3 +34,24 @@ class TimeShim(object):
 
     def sleep(self, dt):
         self._clock.advance(dt)
+
+
+def patch_clock_refs(mod, shim):
+    """Point every reference a module holds to the real clock -- the `time` module itself or functions imported from it
+    (`from time import monotonic`) -- at the shim. Returns [(module, attribute, old value)] for unpatch_clock_refs."""
+    import time as _t
+    table = {id(_t.time): shim.time, id(_t.monotonic): shim.monotonic, id(_t.perf_counter): shim.perf_counter, id(_t.sleep): shim.sleep}
+    saved = []
+    for name, val in list(vars(mod).items()):
+        if val is _t:
+            saved.append((mod, name, val))
+            setattr(mod, name, shim)
+        elif id(val) in table and getattr(val, '__module__', None) == 'time':
+            saved.append((mod, name, val))
+            setattr(mod, name, table[id(val)])
+    return saved
+
+
+def unpatch_clock_refs(saved):
+    for mod, name, val in saved:
+        setattr(mod, name, val)
